@@ -288,6 +288,7 @@ def gen_scenario(rng, kind=None):
     sc['nest'] = rng.random() < 0.8
     sc['garbage'] = rng.choice([0, 0, 1, 4])
     sc['room'] = rng.choice([40, 120, 300, 700]) if near_limit else None
+    sc['late'] = rng.random() < 0.5      # probe the reset by a later history compared with a fresh session
     inprog = rng.random() < 0.6
     if kind == 'clear':
         form = rng.choice(['plain', 'plain', 'mem', 'stack', 'both', 'expr', 'bad'])
@@ -565,6 +566,33 @@ def arr_size(full, dims, lo):
     return 1 + max(3, len(full)) + 3 + 2 * len(dims) + flat * SIGILS[full[-1]]
 
 
+# a history of later statements whose results depend on state that a reset must have cleared, including
+# state that only shows through LATER behaviour (e.g. "the base was implied by DIM": only an ERASE of the last
+# array after an explicit OPTION BASE reveals it).  All statements are independent of the program in memory.
+LATE_HISTORY = [
+    'OPTION BASE 1', 'DIM ZH1!(2)', 'LOCATE 1,1:ZH1!(0)=1', 'LOCATE 1,1:ZH1!(1)=7:PRINT ZH1!(1);ZH1!(2)', 'ERASE ZH1!',
+    'LOCATE 1,1:OPTION BASE 0', 'DIM ZH2%(1),ZH6$(1,1)', 'LOCATE 1,1:ZH2%(0)=5', 'ERASE ZH2%', 'LOCATE 1,1:ZH6$(1,0)="q"',
+    'ERASE ZH6$', 'LOCATE 1,1:OPTION BASE 0', 'LOCATE 1,1:ZH5(3)=2:PRINT ZH5(3);ZH5(10)', 'LOCATE 1,1:ZH5(0)=1',
+    'LOCATE 1,1:ZH5(11)=1', 'ERASE ZH5', 'LOCATE 1,1:OPTION BASE 0', 'LOCATE 1,1:OPTION BASE 1',
+    'LOCATE 1,1:ZH3=1/3:PRINT ZH3', 'LOCATE 1,1:ZH4$="a"+"b":PRINT ZH4$;LEN(ZH4$)', 'LOCATE 1,1:PRINT RND;RND',
+    'LOCATE 1,1:NEXT', 'LOCATE 1,1:WEND', 'LOCATE 1,1:RETURN', 'LOCATE 1,1:RESUME', 'LOCATE 1,1:ERROR 200',
+    'LOCATE 1,1:PRINT 1/0',
+]
+_FRESH = {}
+
+
+def fresh_late_history():
+    """the specification: the same history in a fresh session (after the one RND the probes have drawn)"""
+    if 'out' not in _FRESH:
+        s = basic.new_session(max_memory=TOTAL0)
+        try:
+            ex(s, 'LOCATE 1,1:PRINT RND')
+            _FRESH['out'] = [ex(s, h) for h in LATE_HISTORY]
+        finally:
+            s.close()
+    return _FRESH['out']
+
+
 def run_scenario(sc):
     """Returns dict(pre=..., obs=..., req=model request line, impl=canonical string)."""
     _fast_events()
@@ -801,11 +829,25 @@ def _run(sc, s):
     # program text
     obs['list5000'] = ex(s, 'LOCATE 1,1:LIST 5000')
     # OPTION BASE
-    o = ex(s, 'DIM ZQ7!(1)')
-    n1 = len(s.get_variable('ZQ7!()') or [])
-    ex(s, 'ERASE ZQ7!')
-    o = ex(s, 'OPTION BASE 1')
-    obs['base'] = '1' if n1 == 1 else ('0' if err_of(o) == 10 else '-')
+    full_reset = (kind in ('clear', 'new', 'run') and not clear_err) or \
+        (kind == 'chain' and obs['err_op'] is None and not (op['cs'] or op['ca'] or op['all']))
+    if full_reset and sc.get('late'):
+        # "reset" = what a fresh session does: a history of later statements must behave exactly as in a
+        # fresh session (this exposes state that no single probe can see, e.g. flags that only matter to a
+        # later OPTION BASE / ERASE).  It replaces the classifying probe below, which would itself
+        # overwrite such state; a matching history leaves the base unset-or-1, reported as unset.
+        f = fre_of(ex(s, 'LOCATE 1,1:PRINT FRE(0)')) or 0
+        if f < 250:
+            res['tight'] = f
+            return res
+        obs['late'] = [ex(s, h) for h in LATE_HISTORY]
+        obs['base'] = '-' if obs['late'] == fresh_late_history() else 'H'
+    else:
+        o = ex(s, 'DIM ZQ7!(1)')
+        n1 = len(s.get_variable('ZQ7!()') or [])
+        ex(s, 'ERASE ZQ7!')
+        o = ex(s, 'OPTION BASE 1')
+        obs['base'] = '1' if n1 == 1 else ('0' if err_of(o) == 10 else '-')
     for name, sig, dims, _ in pre_ar:
         if ar_after[name] is not None:
             ex(s, 'ERASE %s' % name)
@@ -1044,7 +1086,15 @@ def oracle(ctx, sc, r):
             want_base = str(sc['base'])
         elif any(keep_all or a['full'] in commons_a for a in sc['arrays']):
             want_base = '0'
-    if obs['base'] != want_base:
+    if 'late' in obs:
+        ref = fresh_late_history()
+        bad = [i for i, (a, b) in enumerate(zip(obs['late'], ref)) if a != b]
+        if bad:
+            i = bad[0]
+            fail('later-history-differs-from-fresh-session',
+                 'statement %d `%s` of the history %r gave %r, a fresh session gives %r'
+                 % (i, LATE_HISTORY[i], LATE_HISTORY[:i + 1], obs['late'][i], ref[i]))
+    elif obs['base'] != want_base:
         fail('option-base', 'OPTION BASE probe says %s, expected %s' % (obs['base'], want_base))
     if obs['for']:
         fail('for-stack-survives', 'NEXT after the reset did not raise NEXT without FOR')
